@@ -10,6 +10,7 @@ mod seq;
 mod tcp;
 mod util;
 mod ws;
+mod wire;
 mod world;
 
 fn usage() -> ! {
@@ -25,6 +26,20 @@ fn main() {
     world::install_panic_hook();
     world::remove_stale_scratch();
     world::install_global_hooks();
+    if args[1] == "realnode" {
+        wire::realnode_main(&args[2..]);
+    }
+    if args[1] == "wire" {
+        let n: usize = args[2].parse().unwrap_or(2);
+        let strategy: &'static str = match args.get(3).map(|s| s.as_str()) {
+            Some("newer") => "newer",
+            Some("arbiter") => "arbiter",
+            _ => "none",
+        };
+        let code = wire::demo(n, strategy);
+        world::cleanup_scratch();
+        std::process::exit(code);
+    }
     if args[1] == "net-demo2" {
         net::init_sleep_sites();
         let c = props::c07::Config { nodes: 3, pids: vec![100, 200, 300], trigger: props::c07::Trigger::LateJoin };
